@@ -319,6 +319,24 @@ pub fn s_history() -> impl Strategy<Value = (Vec<u8>, Vec<Op>)> + Sync {
     )
 }
 
+/// histories whose operations all concern one collection (variants, attributes, keywords,
+/// tlang, tfields, private tags, or the language / script / region fields)
+pub fn s_focused_history() -> impl Strategy<Value = (Vec<u8>, Vec<Op>)> + Sync {
+    (
+        prop_oneof![2 => Just(Vec::new()), 1 => Just(FIXED_START.to_vec()), 2 => gen::s_ast().prop_map(|a| a.render_plain())],
+        any::<u8>(),
+        proptest::collection::vec(ops::s_op(), 30..120),
+    )
+        .prop_map(|(start, c, v)| {
+            let mut kinds: Vec<u8> = v.iter().map(ops::collection).collect();
+            kinds.sort();
+            kinds.dedup();
+            let want = kinds[(c as usize * kinds.len()) >> 8];
+            let ops_: Vec<Op> = v.into_iter().filter(|o| ops::collection(o) == want).take(30).collect();
+            (start, ops_)
+        })
+}
+
 pub fn for_each_history(cfg: &Cfg, tag: &str, f: &(dyn Fn(&[u8], &[Op], &mut Stats, Count) + Sync)) -> Stats {
     let mut total = Stats::new();
     let alpha = ops::op_alphabet();
@@ -343,10 +361,15 @@ pub fn for_each_history(cfg: &Cfg, tag: &str, f: &(dyn Fn(&[u8], &[Op], &mut Sta
             );
         }
     }
-    let nr = cfg.pick(30_000, 1_000_000);
+    let nr = cfg.pick(300_000, 4_000_000);
     let s = run_strategy(&s_history(), cfg.seed, &format!("{tag}-g7"), nr, |(start, ops_), st| f(start, ops_, st, Count::Hash));
     total = total.merge(s);
     total.subspace("G7 random histories, length 0-40, random start (proptest)", nr, false);
+    // histories that stay on one collection (deep add / remove / query interplay on it)
+    let nf = cfg.pick(200_000, 3_000_000);
+    let s = run_strategy(&s_focused_history(), cfg.seed, &format!("{tag}-g7-focused"), nf, |(start, ops_), st| f(start, ops_, st, Count::Hash));
+    total = total.merge(s);
+    total.subspace("G7 focused histories: 2-30 operations on a single collection, random start (proptest)", nf, false);
     total
 }
 
